@@ -45,6 +45,9 @@ pub struct Enc<'a, 'tcx> {
     pub subst: Option<GenericArgsRef<'tcx>>,
     /// callees (def, args) seen — used by the instantiation walk
     pub callees: Vec<(DefId, GenericArgsRef<'tcx>)>,
+    /// unevaluated (assoc) consts referenced — the walk enters their bodies for closures (vtables)
+    pub consts: Vec<(DefId, GenericArgsRef<'tcx>)>,
+    pub depth: usize,
 }
 
 impl<'a, 'tcx> Enc<'a, 'tcx> {
@@ -117,6 +120,26 @@ impl<'a, 'tcx> Enc<'a, 'tcx> {
 
     fn constant(&mut self, c: &Const<'tcx>) -> J {
         let ty = self.mono_ty(c.ty());
+        if let Const::Unevaluated(uv, _) = c {
+            if uv.promoted.is_none() {
+                let a = self.mono_args(uv.args);
+                self.consts.push((uv.def, a));
+            } else if let Some(p) = uv.promoted {
+                // inline small promoted bodies (e.g. `&Enum::Variant`, `&[]`) so rules can see the value
+                if self.depth < 2 && self.tcx.is_mir_available(uv.def) {
+                    let pm = self.tcx.promoted_mir(uv.def);
+                    if let Some(pb) = pm.get(p) {
+                        if pb.basic_blocks.len() <= 4 {
+                            let mut e2 = Enc { tcx: self.tcx, body: pb, env: self.env, subst: self.subst, callees: Vec::new(), consts: Vec::new(), depth: self.depth + 1 };
+                            let b = e2.blocks();
+                            self.callees.extend(e2.callees);
+                            self.consts.extend(e2.consts);
+                            return J::Obj(vec![("k", s("promoted")), ("ty", s(ty.to_string())), ("body", b)]);
+                        }
+                    }
+                }
+            }
+        }
         // function items / closures: give def path and generic args
         match ty.kind() {
             ty::FnDef(did, args) => {
@@ -474,7 +497,7 @@ pub fn dump_all<'tcx>(tcx: TyCtxt<'tcx>, krate: &str, out: &mut Out) {
         }
         let body = tcx.optimized_mir(did);
         let env = TypingEnv::post_analysis(tcx, did);
-        let mut enc = Enc { tcx, body, env, subst: None, callees: Vec::new() };
+        let mut enc = Enc { tcx, body, env, subst: None, callees: Vec::new(), consts: Vec::new(), depth: 0 };
         let mut o = fn_header(tcx, krate, did);
         o.insert(0, ("t", s("fn")));
         o.push(("argc", J::Int(body.arg_count as i128)));
